@@ -12,7 +12,7 @@
      prefix resource ([IBoundary], outside group 1), or nowhere in particular after a tail
      segment;
    * `Regex::captures` returns the LEFTMOST-FIRST match: the one a backtracking engine finds
-     first, greedy quantifiers trying the longest repetition first ([m], [try_down]);
+     first, greedy quantifiers trying the longest repetition first ([m], [greedy]);
    * `Regex::is_match` / `RegexSet` answer whether SOME match exists ([accepts]: a search
      without priorities or captures).
    Positions are byte offsets from the start of the haystack.  No proofs in this file. *)
